@@ -405,10 +405,13 @@ func helperResultLeaves(call *ssa.Call, idx int, chain []*ssa.Call, depth int) [
 	}
 	var out []leafVal
 	sub := append(append([]*ssa.Call{}, chain...), call)
-	instrs(cal, func(b *ssa.BasicBlock, i int, in ssa.Instruction) {
-		if ret, ok := in.(*ssa.Return); ok && idx < len(ret.Results) {
-			out = append(out, valueLeaves(returnedValue(ret, idx), sub, depth+1)...)
-		}
+	// w.publish(t, true): the returns a constant flag of this call switches off do not contribute
+	withChainFlags([]*ssa.Call{call}, func() {
+		instrs(cal, func(b *ssa.BasicBlock, i int, in ssa.Instruction) {
+			if ret, ok := in.(*ssa.Return); ok && idx < len(ret.Results) {
+				out = append(out, valueLeaves(returnedValue(ret, idx), sub, depth+1)...)
+			}
+		})
 	})
 	return out
 }
